@@ -94,11 +94,26 @@ func checkC12(p *Program, r *Report) {
 						errIdx = i
 					}
 				}
-				if errIdx < 0 || isNilConst(ret.Results[errIdx]) {
+				if errIdx < 0 || isNilConst(ret.Results[errIdx]) || b == fn.Recover {
 					continue
 				}
 				reach := reachable(a.in.Block(), nil)
-				if reach[b] && (a.in.Block() != b || instrIndex(a.in) < instrIndex(ret)) {
+				after := func(in ssa.Instruction) bool {
+					return reach[in.Block()] && (a.in.Block() != in.Block() || instrIndex(a.in) < instrIndex(in))
+				}
+				failing := after(ret)
+				// a function with deferred calls returns through a result variable: what matters is where a non-nil error is stored into it
+				if u, ok := ret.Results[errIdx].(*ssa.UnOp); ok {
+					if al, ok := u.X.(*ssa.Alloc); ok {
+						failing = false
+						for _, ref := range *al.Referrers() {
+							if st, ok := ref.(*ssa.Store); ok && st.Addr == ssa.Value(al) && !isNilConst(st.Val) && after(st) {
+								failing = true
+							}
+						}
+					}
+				}
+				if failing {
 					r.Fail("C12.R2", inst+"|then-error", p.Pos(instrPos(ret)), "an error return is reachable after the table was already written: an invalid request changes the scope")
 				}
 			}
